@@ -60,6 +60,21 @@ Fixpoint collect_by_prior (t : mtree) (memo : list nat) {struct t} : list reg * 
       let '(oc, m') := collect_list collect_by_prior ch m0 in (o0 ++ oc, m')
   end.
 
+(* ---- added-loss terms ------------------------------------------------------------------ *)
+(* Module.named_added_loss_terms (_extract_named_added_loss_terms): the same traversal, the [priors] field of a node
+   now lists the node's added-loss registrations (registration name, TERM OBJECT); the memo holds the term objects
+   yielded so far and is threaded through the WHOLE traversal -- that is [collect_by_prior].  The objective subtracts
+   (ELBO / PLL) or adds (exact MLL) the value of every yielded term. *)
+Definition named_added (t : mtree) : list reg := fst (collect_by_prior t []).
+(* all term objects occurring anywhere in the tree *)
+Definition objs (t : mtree) : list nat := map reg_prior (regs t).
+
+(* the defective traversal: every child subtree starts with a fresh memo (the memo is not handed down) *)
+Fixpoint collect_added_fresh (t : mtree) : list reg :=
+  match t with
+  | MNode id ps ch => fst (own_by_prior id ps []) ++ flat_map collect_added_fresh ch
+  end.
+
 (* ---- batch slots ---------------------------------------------------------------------- *)
 Section Slot.
 Context {K : Fld}.
@@ -109,6 +124,25 @@ Definition run_loo_b (c : nat * list (list Qc) * list Qc * list (list Qc) * list
            (bp : list bprior) (idx : list nat) : list Z :=
   let '(n, k, mu, s, y, priors, added) := c in
   run_loo (n, k, mu, s, y, priors ++ map (slot_of idx) bp, added).
+
+(* the values that enter an objective: one per yielded term object (values given per object) *)
+Fixpoint lookup_q (k : nat) (vals : list (nat * Qc)) : Qc :=
+  match vals with
+  | [] => 0%Qc
+  | (k', v) :: r => if Nat.eqb k k' then v else lookup_q k r
+  end.
+Definition added_values (t : mtree) (vals : list (nat * Qc)) : list Qc :=
+  map (fun r => lookup_q (reg_prior r) vals) (named_added t).
+(* ... and of the priors: one per yielded registration, values given per (module, name) *)
+Fixpoint lookup_q2 (k : nat * nat) (vals : list (nat * nat * Qc)) : Qc :=
+  match vals with
+  | [] => 0%Qc
+  | (a, b, v) :: r => if Nat.eqb (fst k) a && Nat.eqb (snd k) b then v else lookup_q2 k r
+  end.
+Definition prior_values (t : mtree) (vals : list (nat * nat * Qc)) : list Qc :=
+  map (fun r => lookup_q2 (reg_mod r, reg_name r) vals) (named_priors t).
+Definition run_named_added (t : mtree) : list Z :=
+  flat_map (fun r => [Z.of_nat (reg_mod r); Z.of_nat (reg_name r); Z.of_nat (reg_prior r)]) (named_added t).
 
 (* named_priors of a module tree: the registrations as (module, name, prior object) triples *)
 Definition run_named (t : mtree) : list Z :=
